@@ -252,6 +252,73 @@ def clause_clear_resets_height(R, F):
          sample={"rule": "TABLES cached height reset", "blocks": hits})
 
 
+def clause_derived_caches_coherent(R, F):
+    """A non-table field of D that some reader prefers over a table (the cached chain tip) is re-derived whenever
+    the table it shadows can lose rows: every D method that calls clear_cache / reorg on a shadowed table assigns the
+    cache field (directly, or through a D method it calls) on every success path.  Otherwise the tip outlives the
+    blocks it points at."""
+    db = roles.database_struct(F)
+    tfs = {f for (f, _, _) in roles.table_fields(F)}
+    caches = [fd["name"] for fd in db["variants"][0]["fields"] if fd["name"] not in tfs and not fd["ty"].startswith("std::option::Option<db::")]
+    caches = [c for c in caches if c not in tfs]
+    dmethods = [f for f in F.fns.values() if f.kind == "method" and f.j.get("self_ty") == db["name"] and not f.j.get("trait") and f.blocks]
+    pairs = []     # (cache field, shadowed table field)
+    for f in dmethods:
+        if f.j["mir"]["argc"] != 1:
+            continue
+        # a getter that switches on the cache field and falls back to a table
+        reads_cache = set()
+        for b in range(len(f.blocks)):
+            t = f.term(b)
+            if t["k"] == "switch" and not f.is_cleanup(b):
+                reads_cache |= {x for x in self_fields(origin(f, t["discr"])) if x in caches}
+        if reads_cache:
+            for tf in fields_touched(F, [f.j["method"]], depth=0):
+                for c in reads_cache:
+                    pairs.append((c, tf))
+    pairs = sorted(set(pairs))
+    R.floor("derived_cache_pairs", len(pairs), 1)
+
+    def assigns(fn, cache):
+        hits = []
+        for bi, b in enumerate(fn.blocks):
+            if fn.is_cleanup(bi):
+                continue
+            for s2 in b["stmts"]:
+                if s2["k"] == "assign" and s2["lhs"]["l"] == 1 and s2["lhs"].get("p") and s2["lhs"]["p"][-1] == "." + cache:
+                    hits.append(bi)
+        return hits
+
+    memo = {}
+
+    def resets(fn, cache, depth=0):
+        k = (fn.id, cache)
+        if k in memo:
+            return memo[k]
+        memo[k] = False
+        hits = assigns(fn, cache)
+        if depth < 4:
+            for c in fn.calls():
+                g = F.fns.get(c.target_id) if c.target_id else None
+                if g is not None and g.blocks and g.j.get("self_ty") == db["name"] and not fn.is_cleanup(c.bb) and g.id != fn.id and resets(g, cache, depth + 1):
+                    hits.append(c.bb)
+        memo[k] = bool(hits) and must_pass_on_success(fn, hits)
+        return memo[k]
+
+    n = 0
+    for (cache, table) in pairs:
+        for m in dmethods:
+            low = calls_on_field(m, {"clear_cache", "reorg"}).get(table, [])
+            if not low:
+                continue
+            n += 1
+            R.ob(resets(m, cache), "TABLES", m.where(), "TABLES|%s|%s" % (m.j["method"], cache),
+                 "%s drops rows of self.%s (%s) but does not re-derive the cached self.%s on every success path: readers that "
+                 "prefer the cache keep seeing a tip whose blocks are gone" % (m.j["method"], table, "/".join(sorted({c.method for c in low})), cache),
+                 sample={"rule": "TABLES derived cache", "method": m.j["method"], "cache": cache, "shadows": table})
+    R.floor("derived_cache_invalidation_sites", n, 2)
+
+
 # ---------------------------------------------------------------- ordering in D
 
 def clause_commit_order(R, F):
